@@ -322,3 +322,44 @@ def make_point_problem(E, var_kinds, cons_kinds, fmt="coo", tag=""):
     p = P()
     spec = dict(n=n, m=m, xl=xl, xu=xu, cl=cl, cu=cu, calls=calls, lookup=lookup, hess=hess, var_kinds=var_kinds, cons_kinds=cons_kinds, tag=tag)
     return p, spec
+
+
+def make_qp_problem(E, var_kinds, m, fmt="coo"):
+    """f = 1/2 x'Qx + q'x,  c = Ax - b (rows posed as equalities c(x) = 0), all data symbolic"""
+    Problem = boot.mod("problem").Problem
+    n = len(var_kinds)
+    xl, xu = bounds(E, var_kinds, "x")
+    Q = [[None] * n for _ in range(n)]
+    for a in range(n):
+        for b in range(a, n):
+            v = E.real(f"Q{a}_{b}")
+            Q[a][b] = v
+            Q[b][a] = v
+    q = [E.real(f"q{j}") for j in range(n)]
+    A = [[E.real(f"A{i}_{j}") for j in range(n)] for i in range(m)]
+    bb = [E.real(f"b{i}") for i in range(m)]
+
+    class P(Problem):
+        def __init__(self):
+            kw = dict(cons_lb=arr([0.0] * m), cons_ub=arr([0.0] * m)) if m else {}
+            super().__init__(arr(xl), arr(xu), **kw)
+
+        def obj(self, x):
+            xs = items(x)
+            return sum((0.5 * xs[a] * Q[a][b] * xs[b] for a in range(n) for b in range(n)), 0.0) + sum((q[j] * xs[j] for j in range(n)), 0.0)
+
+        def obj_grad(self, x):
+            xs = items(x)
+            return arr([sum((Q[a][b] * xs[b] for b in range(n)), 0.0) + q[a] for a in range(n)])
+
+        def cons(self, x):
+            xs = items(x)
+            return arr([sum((A[i][j] * xs[j] for j in range(n)), 0.0) - bb[i] for i in range(m)])
+
+        def cons_jac(self, x):
+            return make_sparse(fmt, (m, n), [(i, j, A[i][j]) for i in range(m) for j in range(n)])
+
+        def lag_hess(self, x, y):
+            return make_sparse(fmt, (n, n), [(a, b, Q[a][b]) for a in range(n) for b in range(n)])
+
+    return P(), dict(n=n, m=m, xl=xl, xu=xu, Q=Q, q=q, A=A, b=bb)
